@@ -195,7 +195,7 @@ var c11Ops = []c11Op{
 	{Kind: "request"},
 	{Kind: "list"},
 	{Kind: "add", Name: "a", Addr: "http://a1.test:80", Weight: 2},
-	{Kind: "add", Name: "a", Addr: "http://a2.test:80", Weight: 3},
+	{Kind: "add", Name: "a", Addr: "http://a2.test:80", Weight: -2}, // below 1: counts (and is listed) as 1
 	{Kind: "add", Name: "b", Addr: "http://bb.test:80", Weight: 0},
 	{Kind: "add", Name: "c", Addr: "http://%zz"},
 	{Kind: "remove", Name: "a"},
